@@ -33,6 +33,16 @@ CLAIMED = {
  "C10": dict(technique="Coq proofs: two parenthesisations of one operator tree parse alike (from parse_tokens), and scrub makes a named wrapper transparent (wrapper_transparent, all callback modes); one-expression-grammar fact extracted from the live parser; position x parenthesis oracle",
              text="Theorems C10_parentheses_inert and C10_wrapper_transparent (Props/C10.v). Every generated expression is embedded in 17 syntactic positions, bare / with redundant parentheses at every node / wrapped, and the subtree at the position's path must be identical everywhere; the translator fails closed if the built parser contains more than one infix table (a clause with its own expression grammar)",
              design="6/C10", note="Partial: the per-position wrappers (select_column / to_select_call, sort_column, one_param ...) are not individually modelled; their transparency is the oracle's job. The three documented literal foldings are excluded by the generator."),
+ "C15": dict(technique="Coq proof history_independence over an API state machine whose per-line effect list is extracted from the AST of __init__.py on every run (shape obligation by vm_compute); purity premise checked on the live grammar graphs; fresh-process history differential",
+             text="Theorems C15_history_independence / C15_result_is_function_of_arguments (Props/C15.v): for every pure grammar-matching function, every history and every call, the result is the pure function spec of the call's arguments (the same parse_result as C08/C11/C12). The obligation shape_okb parse_shape is re-evaluated on the extracted shape; C15_stale_reset_refuted shows what a missing reset does. "
+                  "The purity premise is checked by re-walking every already built parser graph after each later build (several first-creation orders); histories (pairs, random short and long sequences over a 40-call alphabet) run in fresh interpreters and every step is compared with the single-call result",
+             design="6/C15", note="Trusted: Coq kernel; the AST pattern translator (fails closed on unrecognised statements); grammar matching as a Section variable (purity is what the graph check and the differential test)"),
+ "C16": dict(technique="Coq: all entry points locked (extracted shape, vm_compute) + any serial order gives solo results (corollary of history independence) + refuted interleaving for an unlocked entry point; thread stress and deterministic victim/intruder schedule replay against fresh-process results",
+             text="Theorems C16_all_entry_points_locked, C16_any_serial_order, C16_unlocked_refuted (Props/C16.v). Stress: 2-8 threads in fresh interpreters, barrier start, switch interval 1e-6, cold and warm, first calls on different dialects; replay: for all 16 ordered (victim, intruder) pairs the intruder is scheduled between the victim's match and its scrub; every result is compared with the call's solo result, and every thread must finish",
+             design="6/C16", note="Partial: mutual exclusion of threading.Lock, the GIL and the engine's own RLock are runtime behaviour that the model takes as given (a locked call is atomic); pre-emption points inside a call are explored by the stress run only"),
+ "C17": dict(technique="Coq proof over the API machine with a heap of returned trees: a call writes only into trees it allocates itself and its result does not depend on the heap; AST obligations (fresh default NULL, no write through the formatter's argument); identity / mutate-and-reparse / snapshot oracle",
+             text="Theorems C17_earlier_results_untouched, C17_mutation_cannot_leak, C17_fresh_default_null, C17_formatter_does_not_write (Props/C17.v). Oracle: no container of a result is shared with an earlier result, a module-level object or another place of the same result; every container is mutated and the statement plus a probe set re-parsed; earlier results are compared with deep snapshots after later calls; format is run on snapshots",
+             design="6/C17", note="Trusted: container identity is modelled by tags and paths, not by a general heap; the scan for writes in formatting.py is syntactic (assignments / mutating method calls through a parameter)"),
 }
 PENDING_REASON = "check not built yet in this session (planned, see DESIGN.md section 8); not claimed until its theorem and tie exist"
 ALL = ["C%02d" % i for i in range(1, 21)]
